@@ -62,7 +62,7 @@ for _n, _nd, _tiers in ((3, 2, ('quick', 'thorough')), (3, 3, ('quick', 'thoroug
 _HULL_PASSES = 'cgscc(inline),function(sroa,early-cse,instcombine,dce)'
 for _tag, _n, _mode, _xb, _swap, _tiers in (
         ('4p', 4, 1, 0, 0, ('quick', 'thorough')), ('4pt', 4, 1, 0, 1, ('thorough',)),
-        ('4t', 4, 2, 4, 0, ('thorough',)), ('4tt', 4, 2, 4, 1, ('thorough',)),
+        ('4t', 4, 2, 4, 0, ('thorough',)), ('4tt', 4, 2, 3, 1, ('thorough',)),
         ('5p', 5, 1, 0, 0, ('thorough',)), ('5pt', 5, 1, 0, 1, ('thorough',))):
     _fam = ('any permutation of 0..%d' % (_n - 1)) if _mode == 1 else ('any tuple over 0..%d (ties included)' % (_xb - 1))
     K('C20.f.' + _tag, property='C20', engine='symex', harness='C20/hull.cpp', entry='k_hull',
